@@ -73,6 +73,9 @@ type env struct {
 	valAddr  []string // current validator (operator) address per validator: changes with address rotation
 	live     []int    // account indexes that still hold their funds (not rotated away)
 	nRot     int
+	coll     string // the collective / dApp / recovery token the next operation addresses
+	dapp     string
+	rr       string
 	draft    *l2types.Dapp // the dApp as a proposer saw it some blocks ago
 	shareSet map[int64][2]int64
 	notes    []string
@@ -194,7 +197,12 @@ func (e *env) snapOf(c *abci.Chain, ctx sdk.Context) *snapshot {
 			e.acc[a] = id
 		}
 		e.accName[id] = "collective:" + c.Name
-		for _, cc := range app.CollectivesKeeper.GetCollectiveContributers(ctx, c.Name) {
+		// every contributor record of the store, matched by its exact collective name (the keeper's per-collective getter
+		// iterates an un-separated key prefix: "coll1" would also return the contributors of "coll10")
+		for _, cc := range app.CollectivesKeeper.GetAllCollectiveContributers(ctx) {
+			if cc.Name != c.Name {
+				continue
+			}
 			for _, coin := range cc.Bonds {
 				addTo(s.rec, key4{id, kCollBond, idx, e.denID(coin.Denom)}, coin.Amount.BigInt())
 			}
